@@ -57,11 +57,24 @@ func c11Ops() []c11Op {
 		ops = append(ops, c11Op{kind: "gated", sess: s, name: fmt.Sprintf("POST gated tools/call sid=%s as its owner (stays in flight)", c11S(s))})
 		ops = append(ops, c11Op{kind: "close", sess: s, name: fmt.Sprintf("server closes session %s", c11S(s))})
 	}
+	// a POST whose headers have arrived and whose body arrives later (a slow upload): in progress all the same
+	ops = append(ops, c11Op{kind: "slow", sess: 0, name: "POST tools/call sid=s1 as its owner whose body arrives later (stays in flight)"})
 	ops = append(ops, c11Op{kind: "release", name: "in-flight handlers return"})
 	for _, d := range []time.Duration{c11Timeout - c11Eps, c11Eps, c11Timeout} {
 		ops = append(ops, c11Op{kind: "advance", d: d, name: fmt.Sprintf("advance %v", d)})
 	}
 	return ops
+}
+
+// c11SlowBody is a request body that arrives only once gate is closed.
+type c11SlowBody struct {
+	gate chan struct{}
+	r    io.Reader
+}
+
+func (b *c11SlowBody) Read(p []byte) (int, error) {
+	<-b.gate
+	return b.r.Read(p)
 }
 
 func c11U(u string) string {
@@ -159,10 +172,15 @@ func c11InBubble(ops []c11Op, hist []int) verifx.SearchResult {
 			ss.Close()
 		}
 	}()
+	var slowGate chan struct{} // set for one call of do: the request body is held back until the channel is closed
 	do := func(method, sid, user, body string, ctx context.Context) (*httptest.ResponseRecorder, chan struct{}) {
 		var rd io.Reader
 		if body != "" {
 			rd = strings.NewReader(body)
+		}
+		if slowGate != nil {
+			rd = &c11SlowBody{gate: slowGate, r: rd}
+			slowGate = nil
 		}
 		r := httptest.NewRequest(method, "http://example.test/mcp", rd).WithContext(ctx)
 		r.Header.Set("Accept", "application/json, text/event-stream")
@@ -209,7 +227,7 @@ func c11InBubble(ops []c11Op, hist []int) verifx.SearchResult {
 	obs := ""
 	for step, oi := range hist {
 		op := ops[oi]
-		refsSession := op.kind == "call" || op.kind == "get" || op.kind == "delete" || op.kind == "gated" || op.kind == "close"
+		refsSession := op.kind == "call" || op.kind == "get" || op.kind == "delete" || op.kind == "gated" || op.kind == "close" || op.kind == "slow"
 		if refsSession && op.sess >= len(sess) {
 			return verifx.SearchResult{Skip: true}
 		}
@@ -228,7 +246,7 @@ func c11InBubble(ops []c11Op, hist []int) verifx.SearchResult {
 			}
 			return okStatus
 		}
-		if m != nil && m.closing && (op.kind == "call" || op.kind == "get" || op.kind == "gated") {
+		if m != nil && m.closing && (op.kind == "call" || op.kind == "get" || op.kind == "gated" || op.kind == "slow") {
 			return verifx.SearchResult{Skip: true} // unconstrained until the deletion is acknowledged
 		}
 		runsBefore := toolRuns
@@ -300,6 +318,18 @@ func c11InBubble(ops []c11Op, hist []int) verifx.SearchResult {
 			m.inFlight++
 			pending = append(pending, &pendingReq{w: w, done: done, sess: op.sess})
 			obs = "gated"
+		case "slow":
+			if m == nil || !m.alive {
+				return verifx.SearchResult{Skip: true}
+			}
+			slowGate = gate
+			w, done := do("POST", m.id, m.owner, callBody("t", 100+step), context.Background())
+			if finished(done) {
+				return bad("slow-upload-answered-early", "%s: the POST completed with %d before its body had arrived", where, w.Code)
+			}
+			m.inFlight++
+			pending = append(pending, &pendingReq{w: w, done: done, sess: op.sess})
+			obs = "slow"
 		case "release":
 			if len(pending) == 0 {
 				return verifx.SearchResult{Skip: true}
